@@ -3,7 +3,7 @@
 import json, os, sys
 ROOT = os.path.dirname(os.path.dirname(os.path.abspath(__file__)))
 sys.path.insert(0, os.path.join(ROOT, "lib"))
-import props, registry  # noqa
+import props, props2, props3, registry  # noqa
 m = json.load(open(os.path.join(ROOT, "MANIFEST.json")))
 ids = [json.loads(l)["id"] for l in open(os.path.join(ROOT, "properties.jsonl"))]
 na_reasons = getattr(registry, "NOT_APPLICABLE", {})
